@@ -26,11 +26,13 @@ CLAIMED = {
  'C04': dict(
    text='Coq theorems: along any history of non-forced, non-resetting operations every draw starts from the clean state of its jump index and the jump '
         'indices are strictly increasing (no bound on calls per step; stride overrun ends in a refusal); refusal theorems (uninitialised, strict second draw, '
-        'backward jump); seed check sound and complete. Distinct indices => distinct states is proved under the explicit hypothesis pcg_free (full period of '
-        'PCG64 on the jump lattice, a fact about NumPy). Whole real runs are logged draw by draw and every start state is recomputed exactly by the model in Coq.',
-   note='Trusted: Coq kernel, translator, run-time wrapper on Dist.rvs/Dist.jump installed by the harness. pcg_free is a hypothesis (Definition), not an axiom. '
-        'Cross-distribution distinctness rests on NumPy SeedSequence (checked on the logged states, not proved).',
-   technique='Coq invariant proof over operation histories + exact recomputation of logged generator states in Coq',
+        'backward jump); seed check sound and complete; and distinct jump indices below 2^64 give DISTINCT generator states -- proved outright: the 128-bit LCG of '
+        'PCG64 (multiplier = 1 mod 4, odd increment) has full period modulo 2^128 (Hull-Dobell by lifting the exponent, Proofs/P_Pcg.v) and the jump stride is odd. '
+        'Whole real runs are logged draw by draw and every start state is recomputed exactly by the model in Coq; the premises (PCG64, odd increment, state < 2^128) '
+        'are checked on every real generator.',
+   note='Trusted: Coq kernel, translator, run-time wrapper on Dist.rvs/Dist.jump installed by the harness. Cross-distribution distinctness rests on NumPy '
+        'SeedSequence (checked on the logged states, not proved). Closed under the global context.',
+   technique='Coq invariant proof over operation histories + full-period (Hull-Dobell) proof for the PCG64 LCG + exact recomputation of logged generator states in Coq',
    design='5 C04'),
  'C08': dict(
    text='Coq theorems for every module set and every family of per-module time vectors: the plan is a permutation of functions x own time points '
